@@ -104,7 +104,7 @@ DoBase(sc, st0, a) ==
          [] a = "resource"      -> Reply(sc, st, "resource", "", m)
          [] a = "resource-bad"  -> Panic(st, "other")                                      \* invalid rid
          [] a \in {"error-res", "error-res-ctl"}     -> Reply(sc, st, "error", "custom.error", m)
-         [] a \in {"error-plain", "error-plain-ctl"} -> Reply(sc, st, "error", "system.internalError", m)
+         [] a \in {"error-plain", "error-plain-ctl", "error-nilres"} -> Reply(sc, st, "error", "system.internalError", m)
          [] a = "invalidparams-ctl" -> Reply(sc, st, "error", "system.invalidParams", m)
          [] a = "invalidquery-ctl"  -> Reply(sc, st, "error", "system.invalidQuery", m)
          [] a = "panic-str-ctl"     -> Panic(st, "other")
